@@ -169,13 +169,22 @@ def prefix_link(chk, i):
     for n, p in enumerate(prefixes):
         word = ["foo", "bar", "baz"][n]
         rules = '%s   { return %d; }\n.|\\n  { return 1; }' % (word, 10 + n)
+        tables = ((i // 2) % 2 == 1)       # each scanner with its own serialized tables
         if reent:
-            body = ("    yyscan_t sc; %slex_init(&sc); %s_scan_string(s, sc); while (%slex(sc) > 0) n++; "
-                    "%slex_destroy(sc);" % (p, p, p, p))
+            load = ('{ FILE *f = fopen("%s.tbl", "rb"); if (!f || %stables_fload(f, sc)) return -1; fclose(f); } '
+                    % (p, p)) if tables else ""
+            unload = ("%stables_destroy(sc); " % p) if tables else ""
+            body = ("    yyscan_t sc; %slex_init(&sc); %s%s_scan_string(s, sc); while (%slex(sc) > 0) n++; "
+                    "%s%slex_destroy(sc);" % (p, load, p, p, unload, p))
             extra = "reentrant"
         else:
-            body = ("    %s_scan_string(s); while (%slex() > 0) n++; %slex_destroy();" % (p, p, p))
+            load = ('{ FILE *f = fopen("%s.tbl", "rb"); if (!f || %stables_fload(f)) return -1; fclose(f); } '
+                    % (p, p)) if tables else ""
+            unload = ("%stables_destroy(); " % p) if tables else ""
+            body = ("    %s%s_scan_string(s); while (%slex() > 0) n++; %s%slex_destroy();" % (load, p, p, unload, p))
             extra = ""
+        if tables:
+            extra += ' tables-file="%s.tbl"' % p
         sp = os.path.join(d, p + ".l")
         util.write(sp, PREFIX_SPEC % {"p": p, "extra": extra, "rules": rules, "body": body})
         out = os.path.join(d, p + ".c")
